@@ -108,8 +108,9 @@ def visit(t, ctx, out):
     return ctx + [("+", t)]
 
 
-def tests_on(ctx):
+def tests_on(ctx, names=None):
     """(sign, simple test goal) for every type test on the path"""
+    names = TESTS if names is None else names
     res = []
     for sign, g in ctx:
         g = unq(g)
@@ -118,7 +119,7 @@ def tests_on(ctx):
             sign, g = "+", g[2][0]
         for s in simple_goals(g):
             f = P.functor(s)
-            if f and f[0] in TESTS:
+            if f and f[0] in names:
                 res.append((sign, s))
     return res
 
